@@ -1505,3 +1505,54 @@ def c04_s2(ctx):
             yield bad("C04-S2", key, at(f, s["span"]["line"]), "generate_report() for the Finished indication runs before self.condition is taken from the received Finished PDU: the sending user is told the sender's earlier condition (NoError) for a delivery the receiver reported as failed")
     if n == 0:
         raise Anchor("C04-S2", "FinishedIndication built from a received Finished PDU in the sender")
+
+
+# ================================================================ C01-R3
+@rule("C01", "C01-R3", 1, "no received file data is dropped: the only way the store operation returns normally without having recorded the segment is an empty payload", also=("C09", "C20"))
+def c01_r3(ctx):
+    f = ctx.one("C01-R3", "RecvTransaction::store_file_data")
+    merges = {b for _f, b, t, d, r in call_sites([f], ends("segments::Segments::merge"), ctx.prog)}
+    if not merges:
+        raise Anchor("C01-R3", "Segments::merge in store_file_data")
+    err = _error_exit_blocks(ctx, f)
+    reach = f.reachable(0, avoid=merges | err)
+    rets = [b for b in reach if f.blocks[b]["term"]["k"] == "return"]
+
+    def track(key):
+        if key[0] == "expr":
+            return re.match(r"^(Gt|Lt|Eq|Ne|Ge|Le)\(", key[1]) is not None and "len(" in key[1]
+        if key[0] == "call":
+            return key[1].split("::")[-1] == "is_empty"
+        return False
+
+    fl = Flow(ctx.prog, ctx.mods, f, track, user_stop=True)
+    # the blocks on merge-free paths to a return: every such path must go through the `payload is empty` edge
+    problems = []
+    for rb in rets:
+        # worlds at the return restricted to merge-free paths: recompute reachability region
+        region = {b for b in reach if rb in f.reachable(b, avoid=merges | err)}
+        # find an edge in the region that establishes emptiness and dominates the return within the region
+        ok_path = True
+        ws = fl.at_term(rb)
+        # path-insensitive fallback: every world at the return that is compatible with "not recorded" must show emptiness;
+        # worlds are not labelled by path, so require: every branch edge leaving the merge side is an emptiness test
+        exits = []
+        for b in region:
+            t = f.blocks[b]["term"]
+            if t["k"] != "switch":
+                continue
+            succs = [s_ for s_, _l in f.succs(b)]
+            to_merge = [s_ for s_ in succs if any(m in f.reachable(s_, avoid=err) for m in merges)]
+            away = [s_ for s_ in succs if s_ in region and not any(m in f.reachable(s_, avoid=err) for m in merges)]
+            if to_merge and away:
+                exits.append((b, away))
+        for b, away in exits:
+            e = simp(ExprBuilder(ctx.prog, f, user_stop=True).operand(f.blocks[b]["term"]["discr"]))
+            txt = expr_str(e)
+            if not (re.match(r"^(Gt|Lt|Eq|Ne|Ge|Le)\((Vec|slice)::len\(&?[\w.]+\), const\(0\)\)$", txt) or re.match(r"^(Gt|Lt)\(const\(0\), (Vec|slice)::len\(&?[\w.]+\)\)$", txt) or re.match(r"^(Not\()?(Vec|slice)::is_empty\(&?[\w.]+\)\)?$", txt) or re.match(r"^(Gt|Lt|Eq|Ne|Ge|Le)\(\w+, const\(0\)\)$", txt)):
+                ok_path = False
+                problems.append("a normal return (L%d) is reached without recording the segment, on the branch `%s` (L%d), which is not the test for an empty payload" % (f.blocks[rb]["term"]["span"]["line"], txt[:100], f.blocks[b]["term"]["span"]["line"]))
+    if problems:
+        yield bad("C01-R3", "store_file_data:unrecorded-return", at(f), sorted(set(problems))[0])
+    else:
+        yield ok("C01-R3", "store_file_data:unrecorded-return", at(f), "%d return(s) without merge(), all behind the empty-payload test" % len(rets))
